@@ -61,7 +61,9 @@ func foldModel(block []entry, env *envx.Env, prefer bool) (out []entry, errAt in
 
 // (names are whatever strings the block uses as keys: "opt=level" or "my var" cannot be referenced
 // as $NAME, but they are entries like any other - rewritten, recorded, written back to the caller)
-var names = []string{"A", "B", "C", "D", "a", "b", "R1", "R2", "r1", "PATH", "UNSET", "opt=level", "my var", "x.y", "1ST", "é"}
+var names = []string{"A", "B", "C", "D", "a", "b", "R1", "R2", "r1", "PATH", "UNSET", "opt=level", "my var", "x.y", "1ST", "é",
+	// names a real job environment holds
+	"BUILDKITE_BUILD_PATH", "BUILDKITE_SHELL", "BUILDKITE_AGENT_ACCESS_TOKEN", "BUILDKITE_BRANCH", "BUILDKITE_PLUGINS_ENABLED", "HOME", "CI", "LD_PRELOAD"}
 
 type gstats struct{ fwd, chain, overlapPrefer, caseOnly, dynName, tombstones bool }
 
@@ -158,7 +160,7 @@ func TestPropEnvBlock(t *testing.T) {
 		prefer := rapid.Bool().Draw(t, "prefer")
 		envKind := rapid.IntRange(0, 3).Draw(t, "envkind") // 0 sensitive, 1 folding, 2 recording(sensitive), 3 nil
 		runtime := map[string]string{}
-		for _, k := range []string{"R1", "R2", "r1", "PATH", "A", "b"} {
+		for _, k := range []string{"R1", "R2", "r1", "PATH", "A", "b", "BUILDKITE_BUILD_PATH", "BUILDKITE_SHELL", "BUILDKITE_AGENT_ACCESS_TOKEN", "BUILDKITE_BRANCH", "HOME", "CI"} {
 			if rapid.IntRange(0, 2).Draw(t, "has"+k) > 0 {
 				runtime[k] = "rt-" + k + rapid.SampledFrom([]string{"", "$$X", " v"}).Draw(t, "rv")
 				if rapid.IntRange(0, 4).Draw(t, "emptyrt") == 0 {
